@@ -71,10 +71,11 @@ Section FuelMono.
     Proof. unfold resolve_combined_recursive. apply rbind_mono; [apply Hrec|intro a; apply le_rm_refl]. Qed.
 
     Lemma rwnr_mono stack combined nr q :
-      le_rm (resolve_with_nameserver_response cache cache_insert_all rec stack combined nr q)
-            (resolve_with_nameserver_response cache cache_insert_all rec' stack combined nr q).
+      le_rm (resolve_with_nameserver_response cache cache_insert_all zs rec stack combined nr q)
+            (resolve_with_nameserver_response cache cache_insert_all zs rec' stack combined nr q).
     Proof.
-      unfold resolve_with_nameserver_response. destruct nr; try apply le_rm_refl.
+      unfold resolve_with_nameserver_response. apply rbind_mono; [apply le_rm_refl|]. clear nr. intro nr.
+      unfold resolve_with_response_match. destruct nr; try apply le_rm_refl.
       apply rbind_mono; [apply le_rm_refl|]. intros _. apply rbind_mono; [apply rcr_mono|intro; apply le_rm_refl].
     Qed.
 
@@ -305,7 +306,8 @@ Section HopUniform.
       + intros [r [H1 [H2 H3]]]. exists r. split; [apply Hns_in; auto|exact H3].
     - intros rec loop stack cands next locally st candidate rest Ep Eh.
       unfold candidate_step. rewrite Ep. unfold rbind at 1. rewrite Eh. unfold rbind at 1. rewrite Eq.
-      unfold resolve_with_nameserver_response, rbind, insert_all, ret. rewrite Hglue. cbn [fst snd ns_match_count ns_name ns_hostnames].
+      unfold resolve_with_nameserver_response, resolve_with_response_match, cut_at_local_authority, lift_res, rbind, insert_all, ret.
+      rewrite Hglue. cbn [fst snd ns_match_count ns_name ns_hostnames].
       rewrite Hrrs. reflexivity.
   Qed.
 End HopUniform.
